@@ -413,6 +413,16 @@ class Repo(object):
             from . import objflat
             # generic functions read as isinstance chains; helper classes are left as written here (the rules for the
             # Python modules know the classes of the reference tree by role) -- the Cython front end flattens them
+            ref_ = reference_names().get(rel, {})
+            gone_ = [n_ for n_ in ref_ if ref_[n_].get('params') == 1 and not any(isinstance(s_, ast.FunctionDef) and s_.name == n_ for s_ in tree.body)]
+            if gone_:
+                def _cat_class(name, self=self):
+                    try:
+                        raw = ast.parse(self.text('depccg/cat.py'))
+                    except (SyntaxError, AnalysisError):
+                        return None
+                    return next((d for d in raw.body if isinstance(d, ast.ClassDef) and d.name == name), None)
+                objflat.restore_private_predicates(tree, gone_, lambda name, tree=tree, rel=rel: self._generator_named(tree, rel, name), _cat_class)
             objflat.plain_local_assignments(tree)
             objflat.merge_registry(tree)
             objflat._link(tree)
